@@ -22,6 +22,11 @@ type monitor struct {
 	// case bookkeeping
 	caseVals int
 	caseDesc func() string
+	// window of earlier values that are re-checked after later calls (work_hist.go)
+	ring    [ringSize]ringVal
+	offered int64 // well-formed values offered to the ring so far
+	curCase int64
+	lastFam string
 }
 
 func newMonitor(c *core.Ctx) *monitor { return &monitor{c: c, sites: map[string]int64{}} }
@@ -383,19 +388,16 @@ func stateOf(v cty.Value) string {
 	return s + "known"
 }
 
-// see validates one value returned by the library at API site `site`. class is
-// the narrow input class of the call (fixed text chosen by the workload branch);
-// wit builds the printable inputs lazily.
-func (m *monitor) see(site, class string, v cty.Value, wit func() string) bool {
-	m.sites[site]++
-	m.caseVals++
-	m.c.Count("site:" + site)
+// verdict runs the two flavours of the well-formedness walk on v and returns
+// their messages ("" = silent). With sweep the public flavour goes on (if it is
+// silent so far) to the attribute names of the type and the accessor sweep; a
+// re-check of a value that passed the full check before uses the two walks only.
+func (m *monitor) verdict(site string, v cty.Value, sweep bool, wit func() string) (pub, hk string) {
 	// public flavour: mon.WellFormed, then (if silent) the checks that need more of the public API than that walk uses
-	pub := mon.WellFormed(v)
-	hk := ""
+	pub = mon.WellFormed(v)
 	if v != cty.NilVal {
 		hk = hookFlavour(v)
-		if pub == "" {
+		if pub == "" && sweep {
 			if pub = typeNamesNFC(v.Type()); pub == "" {
 				pub = accessorSweep(v)
 			}
@@ -418,15 +420,22 @@ func (m *monitor) see(site, class string, v cty.Value, wit func() string) bool {
 			}
 		}
 	}
-	if pub == "" && hk == "" {
-		return true
-	}
+	return pub, hk
+}
+
+// report turns the messages of the two flavours into violations at site. pre is
+// put in front of the detail (for a re-check: which earlier value this is about).
+// disagree: also report a shared clause that only one flavour saw.
+func (m *monitor) report(site, class string, v cty.Value, pub, hk, w, pre string, disagree bool) {
 	state := "NilVal"
 	if v != cty.NilVal {
 		state = stateOf(v)
 	}
-	w := wit()
-	detail := fmt.Sprintf("returned (%s) %s\npublic-API flavour: %q\nhook flavour: %q", state, gs(v), pub, hk)
+	verb := "returned"
+	if pre != "" {
+		verb = "is"
+	}
+	detail := fmt.Sprintf("%s%s (%s) %s\npublic-API flavour: %q\nhook flavour: %q", pre, verb, state, gs(v), pub, hk)
 	pc, hc := clauseOf(pub), clauseOf(hk)
 	if strings.HasPrefix(pc, "other") {
 		pc = "accessor results are inconsistent with each other"
@@ -441,7 +450,7 @@ func (m *monitor) see(site, class string, v cty.Value, wit func() string) bool {
 			m.c.Violate(site, hc, class, w, detail)
 		}
 	}
-	if (pc == "") != (hc == "") {
+	if disagree && (pc == "") != (hc == "") {
 		one, who := pc, "public-API flavour only"
 		if one == "" {
 			one, who = hc, "hook flavour only"
@@ -451,6 +460,21 @@ func (m *monitor) see(site, class string, v cty.Value, wit func() string) bool {
 			m.c.Violate(site, "the two flavours of the well-formedness walk disagree", one+" ("+who+")", w, detail)
 		}
 	}
+}
+
+// see validates one value returned by the library at API site `site`. class is
+// the narrow input class of the call (fixed text chosen by the workload branch);
+// wit builds the printable inputs lazily.
+func (m *monitor) see(site, class string, v cty.Value, wit func() string) bool {
+	m.sites[site]++
+	m.caseVals++
+	m.c.Count("site:" + site)
+	pub, hk := m.verdict(site, v, true, wit)
+	if pub == "" && hk == "" {
+		m.remember(site, v)
+		return true
+	}
+	m.report(site, class, v, pub, hk, wit(), "", true)
 	return false
 }
 
